@@ -49,7 +49,7 @@ CHECKS = {
     },
     'C12': {
         'text': 'Bounded histories read-all ; mutate ; read-all (every public mutator, symbolic mutator arguments) on BSpline/NURBS curves, surfaces, volumes: every derived view (ctrlpts, weights, ctrlptsw, ctrlpts2d, evalpts, sample sizes, tessellation vertices/faces, bbox) equals the view of a fresh object built from the definition; deep copies independent in both directions; container aggregates.',
-        'note': COMMON_NOTE + 'Histories of length 3 (quick) / 4 with ordered mutator pairs (thorough). Known finding: container evalpts cache after editing an element.',
+        'note': COMMON_NOTE + 'Histories of length 3 (quick) / 4 with ordered mutator pairs (thorough). Known finding: SurfaceContainer vertices/faces cache after editing a contained surface (the evalpts variant was repaired in /repo).',
     },
     'C13': {
         'text': 'With every control point its own symbol and pairwise different sizes: ctrlpts2d, Surface/VolumeManager, find_ctrlpts, flips, transpose, extract_curves/construct_surface, extract_surfaces/construct_volume (u,v,w), extract_isosurface and sweep_vector all address the point the evaluators (== Cox-de Boor definition) use for the same (u,v,w).',
@@ -66,7 +66,7 @@ CHECKS = {
     },
     'C16': {
         'text': 'lu_solve / lu_factor / matrix_inverse / matrix_determinant / matrix_pivot / lu_decomposition satisfy A x = b, A A^-1 = I, Leibniz, genuine permutation, L U = A for ALL symbolic matrices of the stated sizes on every pivoting path; diagonally dominant and collocation matrices always return; two-call histories (memoised identity matrix); vector/matrix helpers, binomial, linspace, frange equal their definitions.',
-        'note': COMMON_NOTE + 'Bounds: n<=3 (4 for lu_solve), pivoting routines n=3 partly concrete in quick; results claimed only when a result is returned. Known finding: matrix_determinant on 3x3 with a zero pivot after static pivoting.',
+        'note': COMMON_NOTE + 'Bounds: n<=3 (4 for lu_solve), pivoting routines n=3 partly concrete in quick; results claimed only when a result is returned. (The matrix_determinant zero-pivot defect found here was repaired in /repo.)',
     },
     'C17': {
         'text': 'find_span_func linear vs binary, evaluator default vs alternative, normalize_kv True vs False under a SYMBOLIC affine knot range (alpha>0, beta), all give identical points/derivatives (scaled by alpha^-k) for all parameters/nets/weights; the lru_cache maxsize expressions extracted from the current source are checked by CrossHair for every decimal GEOMDL_CACHE_SIZE (or unset), plus symbolic C04/C06/C16 runs in subprocesses under {unset,1,16,1024}.',
